@@ -340,7 +340,17 @@ Definition w_indirect (id gen : N) (o : obj) (y : istyle) : bytes :=
 Definition gap_bytes (f : filler) : bytes := match fill_bytes f with [] => [x0a] | fb => fb end.
 
 (* ---------- filters on structural streams ---------- *)
-Record pstyle := { p_pred : N; p_cols : N; p_types : list N }.  (* Predictor 10 + p_pred mod 6; row types cyclic *)
+(* PNG predictors (7.4.4.4): Predictor 10..15 all mean "each row starts with its own PNG filter type"; the row
+   types are the producer's choice PER ROW among None / Sub / Up / Average / Paeth.  A row holds Columns pixels of
+   Colors components of BitsPerComponent bits; the filters work on bytes, at distance bpp = bytes per pixel. *)
+Record pstyle := {
+  p_pred : N;             (* Predictor 10 + p_pred mod 6 *)
+  p_cols : N;             (* wanted pixels per row, where the data leaves a choice *)
+  p_types : list N;       (* row types, consumed row by row, cyclic, mod 5 *)
+  p_colors : N;           (* Colors 1 + p_colors mod 4 *)
+  p_bpc16 : bool;         (* BitsPerComponent 16 instead of 8 *)
+  p_explicit : bool       (* write Colors / BitsPerComponent although they have their default value *)
+}.
 Inductive sfilter :=
 | SfNone
 | SfA85
@@ -371,28 +381,43 @@ Fixpoint cyc_types (k : nat) (ts all : list N) : list N :=
             end
   end.
 
-(* the columns actually used: the wanted number when it divides the length, otherwise 1 *)
-Definition use_cols (want : N) (len : nat) : nat :=
-  let w := N.to_nat want in
-  match w with O => 1%nat | _ => if Nat.eqb (Nat.modulo len w) 0 then w else 1%nat end.
+(* The geometry actually used.  [natural] is the row width the data has by itself (the entry width of a
+   cross-reference stream), 0 when there is none (an object stream: the producer may choose any width and fill
+   the last row with white-space, which is legal after the last object).
+   Returns (bytes per pixel, bytes per row, Columns, Colors, BitsPerComponent). *)
+Definition geometry (p : pstyle) (natural : nat) : nat * nat * nat * nat * nat :=
+  let colors := S (N.to_nat (p_colors p mod 4)) in
+  let bpc := if p_bpc16 p then 16%nat else 8%nat in
+  let bpp := (colors * (bpc / 8))%nat in
+  match natural with
+  | O => let c := Nat.max 1 (N.to_nat (p_cols p)) in (bpp, (c * bpp)%nat, c, colors, bpc)
+  | _ => if Nat.eqb (Nat.modulo natural bpp) 0 then (bpp, natural, Nat.div natural bpp, colors, bpc)
+         else (1%nat, natural, natural, 1%nat, 8%nat)
+  end.
 
-Definition predict (p : pstyle) (cols : N) (data : bytes) : bytes * list (bytes * obj) :=
+Definition pad_to (row : nat) (data : bytes) : bytes :=
+  data ++ repeat x20 (Nat.modulo (row - Nat.modulo (length data) row) row).
+
+Definition predict (p : pstyle) (natural : N) (data : bytes) : bytes * list (bytes * obj) :=
   match data with
   | [] => (data, [])
   | _ =>
-    let c := use_cols cols (length data) in
-    let rows := chunks (length data) c data in
-    (PngSpec.encode_frame (cyc_types (length rows) (p_types p) (p_types p)) 1 c rows,
-     [(bs "Predictor", OInt (Z.of_N (10 + p_pred p mod 6))); (bs "Columns", OInt (Z.of_nat c))])
+    let '(bpp, row, cols, colors, bpc) := geometry p (N.to_nat natural) in
+    let data := match natural with 0 => pad_to row data | _ => data end in
+    let rows := chunks (length data) row data in
+    (PngSpec.encode_frame (cyc_types (length rows) (p_types p) (p_types p)) bpp row rows,
+     [(bs "Predictor", OInt (Z.of_N (10 + p_pred p mod 6))); (bs "Columns", OInt (Z.of_nat cols))] ++
+     (if p_explicit p || negb (Nat.eqb colors 1) then [(bs "Colors", OInt (Z.of_nat colors))] else []) ++
+     (if p_explicit p || negb (Nat.eqb bpc 8) then [(bs "BitsPerComponent", OInt (Z.of_nat bpc))] else []))
   end.
 
-(* encoded data and the entries Filter / DecodeParms.  [cols]: the natural row width of the data (the
-   style's own choice is used when this is 0). *)
+(* encoded data and the entries Filter / DecodeParms.  [cols]: the natural row width of the data (0: none, the
+   style chooses and the data is filled up with spaces to whole rows). *)
 Definition apply_filter (f : sfilter) (cols : N) (as_array : bool) (data : bytes) : bytes * list (bytes * obj) :=
   let one n := if as_array then OArr [OName n] else OName n in
   let pred_of (p : option pstyle) :=
     match p with
-    | Some p => predict p (if cols =? 0 then p_cols p else cols) data
+    | Some p => predict p cols data
     | None => (data, [])
     end in
   match f with
